@@ -6,7 +6,8 @@ Connectables (property C13) on top of the subject machines:
   src/operators/replay.rs      `Replay { subject: ReplaySubject, source, subscription }` + the same two flags
 The hooks of ref_count / replay are the `on_subscribe(len)` / `on_unsubscribe(len)` slots of the inner Subject
 (subject.rs:80-82, 90-92): `SubjM.subscribeA` / `SubjM.unsubscribeN` report the `len` they are called with,
-and the replay hand-over (`SubjM.subscribeB`) runs after `on_subscribe` has returned, as in the Rust.
+and the replay hand-over (`SubjM.subscribeB`) runs after `on_subscribe` has returned, as in the Rust; if it ends
+the subscriber, the forwarder is unsubscribed again, which is one more `on_unsubscribe(len)` call.
 
 The source is either HOT (it emits when the environment says so, to every source observer that is still
 subscribed) or COLD (a script `List Ev` emitted synchronously inside `source.subscribe`, i.e. inside `connect()`
@@ -112,7 +113,9 @@ def step (k : Kind) (src : Src) (st : State) : Call → State
     let a := SubjM.subscribeA k.subj st.sub o
     let st1 := { st with sub := a.1 }
     let st2 := if k.counts then onSubscribe k src st1 a.2.len else st1
-    { st2 with sub := SubjM.subscribeB k.subj st2.sub o a.2 }
+    let b := SubjM.subscribeB k.subj st2.sub o a.2
+    let st3 := { st2 with sub := b.1 }
+    if k.counts then onUnsubscribe st3 b.2 else st3    -- replay: a subscriber ended by the hand-over is reaped
   | .unsubscribe o =>
     let u := SubjM.unsubscribeN k.subj st.sub o
     let st1 := { st with sub := u.1 }
